@@ -12,7 +12,9 @@ FIRST_MISSED = {"C08-dot-absent-left", "C12-unsparsify-full-record-passthrough",
                 "C12-nest-explode-empty-value", "C12-subs-regex-alternation",
                 "C18-dkvp-ips-regex-empty-pair", "C18-strmatchx-first-match-optional-group",
                 "C08-is-not-empty-absent", "C05-csv-implicit-header-carryover", "C05-put-end-block-stale-context",
-                "C17-begin-error-lost-on-empty-input", "C17-redirect-close-masks-flush-error", "C19-inplace-shared-transformer-chain"}
+                "C17-begin-error-lost-on-empty-input", "C17-redirect-close-masks-flush-error", "C19-inplace-shared-transformer-chain",
+                "C13-ignore-empty-multi-key", "C14-positional-rename-unlinks-new-key", "C18-arena-paired-slabs",
+                "C01-nidx-positional-key-cache", "C09-sortbykey-recursive-single-key", "C20-tee-literal-target-cache"}
 NOT_EVALUATED_FIRST = {"C02-ps-alias-output-side", "C02-unflatten-fastpath-empty-collections", "C04-csvlite-schema-reset-batch-edge",
                        "C04-rename-stale-index", "C13-right-default-from-left", "C14-emit-multi-names", "C14-formulti-break",
                        "C15-capitalize-first-byte", "C15-ll-length-modifier-order", "C16-strftime-neg-fraction", "C16-verb-int-nanos-path",
